@@ -29,6 +29,11 @@ class DocGen:
             nm = self.ident()
             while nm in names: nm = nm + '_'
             names.add(nm)
+            qn = getattr(self, 'quoted_names', 0)
+            if qn and R.random() < qn:          # names that must be written quoted (space, dot, leading digit, keyword)
+                nm = '"%s"' % R.choice(['sp ace', 'do.t', '1st', 'with', 'a-b c'])
+                while nm in names: nm = nm[:-1] + '_"'
+                names.add(nm)
             if R.random() < 0.15 and top: nm = nm + '.' + self.ident()
             l = ' ' * ind + nm + ' = ' + self.value(ind, depth) + ';'
             if R.random() < 0.2: l += ' # eol'
